@@ -41,6 +41,8 @@ def read_ipm(data, enc, blocked, cfg=None):
 
 
 def oracle(inp):
+    if not isinstance(inp, dict) or inp.get('kind') not in ('codec','ipm','mideu','param'):
+        return None          # unknown input kind (model of another property's unit)
     import random, warnings
     warnings.simplefilter('ignore')
     rng = random.Random(inp.get('seed', 0))
